@@ -71,9 +71,10 @@ var wC23 = weights{"tip": 7, "past": 8, "update": 2, "time": 1, "block": 1}
 
 func TestC23(t *testing.T) {
 	vx.Check(t, vx.Prop[Case]{
-		ID:        "C23",
-		Rule:      "updates in arbitrary height order (tip, gap-filling) with header times drawn relative to the stored neighbours (prev.ts-1, prev.ts, prev.ts+1, midpoint, next.ts-1, next.ts, next.ts+1, trusted.ts, now); non-trivial = a gap-filling header whose time is at/outside a neighbour's and that passed signature verification; distinct by full history",
-		MinNTFrac: 0.25,
+		ID:          "C23",
+		Rule:        "updates in arbitrary height order (tip, gap-filling) with header times drawn relative to the stored neighbours (prev.ts-1, prev.ts, prev.ts+1, midpoint, next.ts-1, next.ts, next.ts+1, trusted.ts, now); non-trivial = a gap-filling header whose time is at/outside a neighbour's and that passed signature verification; distinct by full history",
+		MinNTFrac:   0.25,
+		Assumptions: []string{"counterparty chain V is virtual: the harness owns its validator keys (ed25519 from secret val-<i>) and signs headers itself", "recovery = ClientKeeper.RecoverClient (MsgRecoverClient after its authority check); upgrades and client genesis import are not exercised", "raw client store parsed by its documented key layout; stored protobuf values decoded with the app codec"},
 		Gen: func(t *rapid.T) Case {
 			return genCase(t, wC23, 24, func(i, n int) int {
 				if i < 4 {
